@@ -47,6 +47,11 @@ CLAIMED.update({
    text='Reductions keep exactly x, y, yaw / vx, vy, yaw rate and rows/columns (0,1,5) of the covariance for every double (NaN included); embed-then-reduce is the identity and symmetry is kept; the quadratic forms of reduced/embedded covariances agree (so PSD is preserved); the rigid transform of a pose acts as R p + T on the position, the identity is neutral for position and attitude (as a rotation), successive transforms compose on the position.',
    note=TB_A + '; ' + TB_B + '; NOT covered: the uncertainty ellipse (Eigen::JacobiSVD) and composition of the attitude part (needs R(angles(M)) = M), exercised by the native replay only', ref='DESIGN.md 4 (C11)'),
 })
+CLAIMED.update({
+ 'C14': dict(cat='proof', technique='CBMC code contracts with a loop invariant for the chain + SMT verification conditions for the Amanatides-Woo one-step geometric invariant',
+   text='Chain length = L1 distance + 1, first entry = origin cell, each step moves one face-adjacent cell along the axis of the smallest crossing parameter (ties: second axis), traversal state after cast(end) is a function of grid, origin and end only (history independence); geometric invariant established by setEndPoint and preserved by next(): the ray stays in the closed current cell until the crossing parameter and the crossing point lies in the next cell, so every listed cell is crossed by the segment.',
+   note=TB_A + '; ' + TB_B + '; RayCasting<double,2> only; the clause "ends in the end cell after L1 steps without leaving the grid" is NOT decided (native replay only)', ref='DESIGN.md 4 (C14)'),
+})
 NA = {}
 def main():
     props = [json.loads(l) for l in open(os.path.join(V, 'properties.jsonl'))]
